@@ -11,7 +11,7 @@ ASSUMPTIONS = [
     "limiter: total_tokens = nv (nv in [0,n+1]) assigned at a symbolic instant; semaphore: foreign release() adds a permit",
 ]
 OUTSIDE = ["more than 3 tasks, permits > 2", "uvloop, trio"]
-MUST_REACH = ["contended", "cancelled-waiter", "wouldblock", "total-raised-with-waiters", "total-lowered-below-borrowed", "scope-cancel-while-queued", "reacquire-rejected", "foreign-release-rejected",
+MUST_REACH = ["contended", "cancelled-waiter", "wouldblock", "total-raised-with-waiters", "total-lowered-below-borrowed", "total-raised-after-lowered-below-borrowed", "scope-cancel-while-queued", "reacquire-rejected", "foreign-release-rejected",
               "cleanup-acquire-while-cancelled"]
 
 
@@ -42,7 +42,9 @@ def units(tier):
     add("lim", "n=2 aa cap=1 retotal", n=2, modes="aa", cap=1, retotal=True)
     add("lim", "n=3 aaa cap=1 retotal", n=3, modes="aaa", cap=1, retotal=True, T=1, J=1)
     add("lim", "n=2 aa cap=1 retotal cancel=1", n=2, modes="aa", cap=1, retotal=True, cancel=1, T=1, J=1)
+    add("lim", "n=3 aaa cap=2 lower-then-raise s=0", n=3, modes="aaa", cap=2, retotal=True, retotal2=True, fixed_s=True, T=1, J=0)
     if not quick:
+        add("lim", "n=3 aaa cap=2 lower-then-raise", n=3, modes="aaa", cap=2, retotal=True, retotal2=True, T=1, J=0)
         add("lim", "n=3 aaa cap=2 retotal cancel=2", n=3, modes="aaa", cap=2, retotal=True, cancel=2, T=1, J=1)
         add("lim", "n=3 aaa cap=3 retotal cancel=1 native", n=3, modes="aaa", cap=3, retotal=True, cancel=1, native=True, T=1)
         add("sem", "n=3 aaa capsym<=2 cancel=2", n=3, modes="aaa", cap=2, capsym=True, cancel=2, T=1)
